@@ -26,10 +26,12 @@ Proved (proof, partial) for the unary operation classes between ITERATION engine
     returns a well-formed relation in the tree's engine with the columns and - as a multiset, a join defines no
     order - the rows of joining at the root (induction over the tree: every commutation report of
     `PartialJoin.commute` (C04), `_finish_apply` (C05), the SQL engine's join factory below the transfer (C17)).
+  * `join_with_backtracking_sound`: the same end to end for `relation.join(fixed)` with its default options
+    (`_begin_apply` resolves the common columns; a join that cannot be moved all the way into the database is refused
+    with `EngineError` because its operands live in different engines).
 Excluded by hypothesis, not proved: a Projection back-tracked past a Deduplication (`spineNoDedup`;
-this is the unsound pair of C04, finding F04); for joins, the glue of `apply` around `backtrack_unary`
-(`_begin_apply` resolving the common columns, the fall-through when back-tracking does not finish) and payload-holding
-Transfers on the way (`spineNoPayload`); and `transfer=True` towards a SQL preferred engine from an iteration-engine
+this is the unsound pair of C04, finding F04); for joins, `transfer=True`, an explicit preferred engine other than the
+fixed relation's, and payload-holding Transfers on the way (`spineNoPayload`); and `transfer=True` towards a SQL preferred engine from an iteration-engine
 target combined with back-tracking: those are validated by correspondence + oracle.
 
 Working out this induction is what exposed three genuine defects of the implementation (now
@@ -141,6 +143,28 @@ theorem join_backtracking_sound (σ : Leaves) (st : Store) (pref : Engine) (hpk 
   obtain ⟨h1, h2⟩ := backtrack_pj_sound σ st pref hpk p gF hfe hres hfix fuel tree res done hwf htr hop hpo hnp h
   exact ⟨h1, fun hd => ⟨(h2 hd).wf, (h2 hd).truthful, (h2 hd).engine, (h2 hd).rows, (h2 hd).cols⟩⟩
 
+/-- **`relation.join(fixed)` with back-tracking, end to end** (`PartialJoin.apply` with its default options: the
+preferred engine is the fixed relation's, `backtrack=True`, `transfer=False`; any `require_preferred_engine`): for a
+target in an iteration engine and a fixed relation in a database, WHENEVER THE CALL SUCCEEDS the join was back-tracked
+into the database (`_begin_apply` resolved the common columns into `p'`; a join that cannot be moved all the way is
+refused with `EngineError` by `Join.apply`, because its operands live in different engines), and the result is
+well-formed, lives in the target's engine and has the columns and - as a multiset - the rows of the join applied at the
+root. -/
+theorem join_with_backtracking_sound (σ : Leaves) (st : Store) (fuel : Nat) (p : PJoin) (t : Rel) (o : Opts)
+    (hpref : o.pref = none) (hbt : o.backtrack = true) (htr : o.transfer = false)
+    (hkt : t.engine.kind = .iter) (hks : p.fixed.engine.kind = .sql)
+    (gF : Good NodeInv.triv σ p.fixed)
+    (hfix0 : p.join.resolved = true → p.join.minCols.subset p.fixed.columns = true)
+    (hwf : t.WF) (htrt : t.Truthful σ) (hpo : t.prefTargetsGood NodeInv.triv σ p.fixed.engine)
+    (hnp : t.spineNoPayload st)
+    (res : Res) (h : applyOp st fuel (.pj p) t o = .ok res) :
+    ∃ p', p.beginApply t none = .ok (p', p.fixed.engine) ∧
+      (res.get t).WF ∧ (res.get t).Truthful σ ∧ (res.get t).engine = t.engine ∧
+      List.Perm (sem σ (res.get t)) (p'.semRows (sem σ p'.fixed) (sem σ t)) ∧
+      (∀ x, x ∈ (res.get t).columns ↔ x ∈ p'.appliedColumns t.columns) := by
+  obtain ⟨p', hb, B⟩ := applyOp_pj_backtracked σ st fuel p t o hpref hbt htr hkt hks gF hfix0 hwf htrt hpo hnp res h
+  exact ⟨p', hb, B.wf, B.truthful, B.engine, B.rows, B.cols⟩
+
 /-- Tie to the source: the `commute` methods that `backtrack_unary` consults - including
 `PartialJoin.commute` (sound by C04's `partial_join_commute_sound`) - are the current source's
 (translators T-e / T-f). -/
@@ -216,6 +240,11 @@ example (σ : Leaves) (hσ : leafS.Truthful σ) (hF : leafF.Truthful σ) :
       treeI.prefTargetsGood NodeInv.triv σ es ∧ treeI.spineNoPayload [] :=
   ⟨Good.atom _ rfl trivial hF rfl trivial, rfl, by decide, by decide, by decide,
    ⟨fun _ _ => Good.atom _ rfl trivial hσ rfl trivial, trivial⟩, ⟨rfl, trivial⟩⟩
+/-- ... and the whole call `treeI.join(leafF)` (automatic common columns, default options) succeeds with that shape -/
+example : (applyOp [] defaultFuel (.pj ⟨⟨.lit true, [], none⟩, leafF, false⟩) treeI {}).toOption.map
+    (fun r => match r.get treeI with
+      | .unary (.sel _) (.transfer _ _ (.select ..)) _ => true
+      | _ => false) = some true := by decide +kernel
 example : (backtrack [] defaultFuel (.pj pjI) treeI es).toOption.map
     (fun r => r.2 && (match r.1.get treeI with
       | .unary (.sel _) (.transfer _ _ (.select ..)) _ => true
